@@ -1148,7 +1148,7 @@ var Engine = &core.Engine{
 		"mix-ins: a column declared by several fields belongs to the field with the shortest path, the first one among equals (gorm's rule in schema.Parse, Go's rule for promoted fields); the harness computes the owner itself and sets / reads only owning fields; `uniqueIndex` and index tags with the default name are not generated on a shadowed field (gorm builds an index for every field, shadowed or not, on creation and on migration alike; the statement does not say whether an index written on a shadowed field belongs to the model - a NAMED plain index is generated there, nothing is demanded of it), and no uniqueness probe is made on a column whose shadowed field says `unique`; a mix-in is the same type in v1 and v2, collides only with fields that exist whenever it does, is not pointer-embedded and has no prefix when it collides; two mix-ins keep their order",
 		"only tag KEYS are respelled: values are literal to gorm (`size: 64`, `index: name`, `priority: 2`, `size:64 ;` are other values) and are never written with blanks; a blank in front of a key is one or two spaces or (1 of 6) a tab",
 		"gorm.Config{PrepareStmt:true} is not generated: the external SQLite dialector's ColumnTypes takes the column list from `SELECT * FROM t LIMIT 1`, and database/sql + go-sqlite3 report for a cached prepared statement the column list of BEFORE an ALTER TABLE ADD (reproduced without gorm), so the AutoMigrate after one that added a column fails with `duplicate column name` - cause outside /repo",
-		"generated relations: the generated model types have no name (reflect.StructOf), so db.Table(t) cannot be combined with relations (it would name the table of every model of the call); such histories name the table through the NamingStrategy, always give joinForeignKey (there is no type name to derive it from) and relate only to declared types; the names of the join table's columns are taken from gorm's own parse of the model (the statement does not fix them; a `column :c` tag spelled with a blank behind the name keeps the owner's column name in the join table: counted as join_columns_not_named_by_the_join_tags, not judged); the key column of a many2many carries only column / not null / size / comment / index / unique / uniqueIndex tags when it is synthesised, a primary key may receive what the generator adds to any v1 field (index, check); foreign key enforcement is off, has-one / has-many towards generated types, polymorphic and self-referential relations and relations between two generated types are not generated; an index the join table may take over from a key field without refusing rows or failing is not looked for (the statement does not fix the join table's indexes)",
+		"generated relations: the generated model types have no name (reflect.StructOf), so db.Table(t) cannot be combined with relations (it would name the table of every model of the call); such histories name the table through the NamingStrategy, always give joinForeignKey (there is no type name to derive it from) and relate only to declared types; the names of the join table's columns are taken from gorm's own parse of the model (the statement does not fix them; a `column :c` tag spelled with a blank behind the name keeps the owner's column name in the join table: counted as join_columns_not_named_by_the_join_tags, not judged); the key column of a many2many carries only column / not null / size / comment / index / unique / uniqueIndex tags when it is synthesised, a primary key may receive what the generator adds to any v1 field (index, check); foreign key enforcement is off, has-one / has-many towards generated types, polymorphic and self-referential relations and relations between two generated types are not generated; an index the join table may take over from a key field without refusing rows or failing is not looked for (the statement does not fix the join table's indexes); Association().Append to an old row is left out when an autoUpdateTime column of the model carries a generated check (Append touches the owner, the time gorm writes lies outside the check's range)",
 		"table-naming scopes only call Table(t) or register such a scope; scopes that add conditions, and a scope combined with db.Table(other), are not generated",
 		"a DryRun session (Session{DryRun:true}.AutoMigrate) is outside the statement (it fixes what a migration adds and preserves, not that a dry run leaves the database alone) and is not generated",
 	},
